@@ -83,6 +83,7 @@ type VC struct {
 	rangeDone    map[string]bool // range-form side axioms already emitted
 	layer        string          // property whose tagged clauses are active in this VC ("" = base contract)
 	noRangeForms bool
+	callsiteHits map[*Clause]int
 	w        *World
 	fn       *ssa.Function
 	contract *Contract
